@@ -93,8 +93,11 @@ def check_outputs(snaps: list[dict[str, Any]], files: list[OutFile], outconf: di
                 got = np.asarray(r.vars[name], float)
                 want = np.asarray(s["inst"][name], float)
                 tol = PREC.get(conf["encoding"]["datatype"], 0.0)
+                sf = float((conf.get("attributes") or {}).get("scale_factor", 0.0))  # packed variable: half a quantum
+                if sf:
+                    cnt["packed_values_compared"] = cnt.get("packed_values_compared", 0) + len(want)
                 cnt["values_compared"] = cnt.get("values_compared", 0) + len(want)
-                if len(got) != len(want) or np.any(np.abs(got - want) > tol * (1 + np.abs(want))):
+                if len(got) != len(want) or np.any(np.abs(got - want) > tol * (1 + np.abs(want)) + 0.5000001 * sf):
                     V.append(C.viol(f"{f.path.name} record {r.idx}: {name} = {got[:8].tolist()}, state had {want[:8].tolist()} (pids {want_pids[:8].tolist()})"))
                     return
             if f.layout == "dense":
@@ -129,7 +132,7 @@ def check_outputs(snaps: list[dict[str, Any]], files: list[OutFile], outconf: di
                     V.append(C.viol(f"{f.path.name}: particle variable {name} defined for {len(got)} particles, {npid} were released up to the file's last record"))
                     return
                 g = got[:npid]
-                bad = ~((g == want) | (np.isnan(g) & np.isnan(want)) | (np.abs(g - want) <= PREC.get(conf["encoding"]["datatype"], 0.0) * (1 + np.abs(want))))
+                bad = ~((g == want) | (np.isnan(g) & np.isnan(want)) | (np.abs(g - want) <= PREC.get(conf["encoding"]["datatype"], 0.0) * (1 + np.abs(want)) + 0.5000001 * float((conf.get("attributes") or {}).get("scale_factor", 0.0))))
                 if np.any(bad):
                     i = int(np.nonzero(bad)[0][0])
                     V.append(C.viol(f"{f.path.name}: particle variable {name}[pid {i}] = {g[i]}, state had {want[i]} ({int(bad.sum())} of {npid} wrong)"))
